@@ -1,12 +1,14 @@
-(* Statement-level labelled transition system of the strax.Context code that the worker threads of a
-   multi-run call share (strax/context.py).  Shared state: `_plugin_class_registry` (a dict) and
+(* PINNED CODE (strax/context.py BEFORE /repo commit d202a14; kept as documentation of finding D7, the model of
+   the repaired code is Model/CtxRace.v).
+   Statement-level labelled transition system of the strax.Context code that the worker threads of a
+   multi-run call share.  Shared state: `_plugin_class_registry` (a dict) and
    `_fixed_plugin_cache` (None, or {context_hash: dict}).  One transition of a thread = one *labelled
    source line* of that code (a line that mentions the registry or the cache) together with the purely
    thread-local code up to the next labelled line - exactly the granularity of the line-level
    interleaver (harness/props/c15_interleave.py), so a schedule (list of thread ids) can be replayed on
    the real code step by step and the sequences of labels compared.
 
-   Labels (the harness resolves them to source lines by pattern, see c15_ctx.LABELS):
+   Labels (the harness resolves them to source lines by pattern, see c15_interleave.LABELS):
      1  _get_plugins        `for pc in self._plugin_class_registry.values()`     (iteration)
      2  _plugins_are_cached `... or self._fixed_plugin_cache is None`
      3  _context_hash       `for data_type, plugin in self._plugin_class_registry.items()` (iteration)
